@@ -6,6 +6,8 @@ import (
 	"go/types"
 	"math/big"
 	"strings"
+
+	"golang.org/x/tools/go/ssa"
 )
 
 // SVal is a spec-level value: an SMT term plus, when known, its Go type.
@@ -156,8 +158,16 @@ func (env *specEnv) eval(e Expr) SVal {
 			c.counter["q"]++
 			name := quote(fmt.Sprintf("q %s %d", qv.Name, c.counter["q"]))
 			srt := specSort(qv.Sort)
+			got := specGoType(qv.Sort)
+			if got == nil && qv.Sort != "" && srt == qv.Sort {
+				// a Go type name ("labels.Labels", "*labels.Matcher", "Client")
+				if t := c.eng.lookupType(env.pkg, qv.Sort); t != nil {
+					got = t
+					srt = c.sortOf(t)
+				}
+			}
 			binds = append(binds, fmt.Sprintf("(%s %s)", name, srt))
-			n.vars[qv.Name] = SVal{T: Term{name, srt}, GoT: specGoType(qv.Sort)}
+			n.vars[qv.Name] = SVal{T: Term{name, srt}, GoT: got}
 		}
 		body := n.eval(x.Body)
 		_ = guards
@@ -422,6 +432,24 @@ func (env *specEnv) evalCall(x *ECall) SVal {
 		n.heap = env.old
 		n.resolve = env.resolve
 		return n.eval(x.Args[0])
+	case "local":
+		// local(x): the value of a single-assignment local variable of the function
+		id, ok := x.Args[0].(*EIdent)
+		if !ok {
+			specFail("local(x) needs an identifier")
+		}
+		root := c.rootFrame
+		var found ssa.Value
+		for _, v := range root.debug[id.Name] {
+			if _, have := root.vals[v]; !have {
+				continue
+			}
+			found = v // the last recorded use/definition that has a value on this path
+		}
+		if found == nil {
+			specFail("local(%s): no such local (or not assigned on this path)", id.Name)
+		}
+		return root.sval(root.vals[found], found.Type())
 	case "len":
 		v := arg(0)
 		switch v.T.Sort {
@@ -537,6 +565,27 @@ func (env *specEnv) evalCall(x *ECall) SVal {
 		}
 		return env.applySpecFunc(sf, args)
 	}
+	if x.Fun == "result" && len(x.Args) == 2 {
+		fn, args, sig := env.pureCallParts(x.Args[0])
+		idx, ok := x.Args[1].(*EInt)
+		if !ok || int(idx.V.Int64()) >= sig.Results().Len() {
+			specFail("result(call, i): bad result index")
+		}
+		i := int(idx.V.Int64())
+		rt := sig.Results().At(i).Type()
+		return SVal{T: c.pureResultApp(fn, args, rt, i, sig.Results().Len()), GoT: rt}
+	}
+	// a pure function of the package under contract, used as a spec-level function
+	if env.pkg != nil {
+		if _, ok := env.pkg.Scope().Lookup(x.Fun).(*types.Func); ok {
+			fn, args, sig := env.pureCallParts(x)
+			if sig.Results().Len() != 1 {
+				specFail("%s has %d results: use result(%s(...), i)", x.Fun, sig.Results().Len(), x.Fun)
+			}
+			rt := sig.Results().At(0).Type()
+			return SVal{T: c.pureMethodApp(fn, args, rt), GoT: rt}
+		}
+	}
 	specFail("unknown spec function %q", x.Fun)
 	return SVal{}
 }
@@ -585,6 +634,59 @@ func (env *specEnv) evalMethod(x *EMethod) SVal {
 	}
 	rt := sig.Results().At(0).Type()
 	return SVal{T: c.pureMethodApp(fn, args, rt), GoT: rt}
+}
+
+// pureCallParts resolves a spec-level call of a pure method (x.M(args)) or of a pure function of
+// the package (F(args)) to its function object and argument terms.
+func (env *specEnv) pureCallParts(e Expr) (*types.Func, []Term, *types.Signature) {
+	switch x := e.(type) {
+	case *EMethod:
+		recv := env.eval(x.X)
+		if recv.GoT == nil {
+			specFail("method call .%s() on a value of unknown Go type", x.Name)
+		}
+		obj, _, _ := types.LookupFieldOrMethod(recv.GoT, true, env.pkg, x.Name)
+		fn, ok := obj.(*types.Func)
+		if !ok {
+			specFail("type %s has no method %s", recv.GoT, x.Name)
+		}
+		args := []Term{recv.T}
+		for _, a := range x.Args {
+			args = append(args, env.eval(a).T)
+		}
+		return fn, args, fn.Type().(*types.Signature)
+	case *ECall:
+		if env.pkg != nil {
+			if fn, ok := env.pkg.Scope().Lookup(x.Fun).(*types.Func); ok {
+				key := env.pkg.Path() + "." + x.Fun
+				if ct := env.c.eng.contracts[key]; ct == nil || !ct.Pure {
+					specFail("%s is used as a spec function but has no `pure` contract", x.Fun)
+				}
+				var args []Term
+				for _, a := range x.Args {
+					args = append(args, env.eval(a).T)
+				}
+				return fn, args, fn.Type().(*types.Signature)
+			}
+		}
+	}
+	specFail("result(call, i): call must be x.M(args) or F(args) of a pure function")
+	return nil, nil, nil
+}
+
+// pureResultApp: i-th result of a pure function with n results.
+func (c *Ctx) pureResultApp(fn *types.Func, args []Term, rt types.Type, i, n int) Term {
+	if n == 1 {
+		return c.pureMethodApp(fn, args, rt)
+	}
+	name := quote(fmt.Sprintf("pure %s#%d", fn.FullName(), i))
+	var as []string
+	for _, a := range args {
+		as = append(as, a.Sort)
+	}
+	rs := c.sortOf(rt)
+	c.decl("pure "+name, fmt.Sprintf("(declare-fun %s (%s) %s)", name, strings.Join(as, " "), rs))
+	return mk(rs, name, args...)
 }
 
 // pureMethodApp builds the application of the uninterpreted function standing for a
